@@ -228,3 +228,70 @@ def per_char(db, ctx):
                "the table lookup `%s` is reached under %s (must be only !(offset < min_offset): a key must be tried at every position, whatever "
                "the character's own normalisation status)" % (render(c)[:50], conds), fn=sl, site=c.get("sp"))
     ctx.floor(7)
+
+
+@rule("C07.char-cache", "InputBuffer.mod_chars is a cache of the current text (refresh_chars refills it only when empty): every function that "
+                        "replaces the current text (swap / assignment of `modified`) also invalidates it, so the next plugin decides on the rewritten text")
+def char_cache(db, ctx):
+    from .C10 import events, param_summaries
+    adt = "sudachi::input_text::buffer::InputBuffer"
+    rc = db.one("refresh_chars", "InputBuffer")
+    lazy = any(n.get("k") == "If" and "mod_chars" in render(n["cond"]) and "is_empty" in render(n["cond"]) for n, _ in walk(rc.hir))
+    ctx.ob("refresh_chars|lazy", True, "refresh_chars refills mod_chars only when it is empty: %s" % lazy, fn=rc, nontrivial=False)
+    if not lazy:
+        return   # an unconditional refresh needs no invalidation
+    summ = param_summaries(db)
+    n = 0
+    for f in db.fns.values():
+        if f.pkg != "sudachi" or not f.hir or f.self_adt != adt:
+            continue
+        ev = [(k_, t_[2], how) for k_, t_, how, node in events(db, f, summ) if t_[0] == "field" and t_[1] == adt]
+        replaces_text = any(fld == "modified" and (k_ == "swap" or (k_ == "kill" and how == "assign")) for k_, fld, how in ev)
+        if not replaces_text:
+            continue
+        n += 1
+        kills_cache = any(fld == "mod_chars" and k_ == "kill" for k_, fld, how in ev)
+        ctx.ob("%s|invalidates-char-cache" % f.short(), kills_cache,
+               "%s installs a new current text; it clears the character cache mod_chars: %s%s" % (
+                   f.short(), kills_cache, "" if kills_cache else " — a later plugin that asks for characters sees the text as it was BEFORE this rewrite "
+                                                                   "(e.g. it picks the fast/general path from stale characters)"), fn=f)
+    ctx.floor(1)
+
+
+@rule("C07.flush-pending-range", "accumulate-and-flush loops in the yomigana class builder: a range accumulated across iterations and emitted inside "
+                                 "the loop when a gap is met is also emitted once after the loop (otherwise the last block of every class is lost)")
+def flush_pending(db, ctx):
+    from ..origins import for_loop_parts
+    n_inst = 0
+    for f in db.fns.values():
+        if f.pkg != "sudachi" or not f.hir or "ignore_yomigana" not in f.key:
+            continue
+        stmts = f.hir.get("stmts", []) if f.hir.get("k") == "Block" else []
+        for i, st in enumerate(stmts):
+            e = st.get("e") or {}
+            fl = for_loop_parts(e) if e.get("k") == "Match" else None
+            if not fl:
+                continue
+            body = fl[2]
+            inside = {x["pat"].get("name") for x, _ in walk(body) if x.get("k") == "Let"}
+            carried = {local_name(x["l"]) for x, _ in walk(body) if x.get("k") == "Assign" and local_name(x["l"]) and local_name(x["l"]) not in inside}
+            for c, _ in walk(body):
+                if is_call(c) and callee(c) in db.fns:
+                    used = [local_name(a) for a in call_args(c) if local_name(a) in carried]
+                    if not used:
+                        continue
+                    n_inst += 1
+                    after = False
+                    for st2 in stmts[i + 1:]:
+                        for c2, _ in walk(st2.get("e") or st2.get("init") or {}):
+                            if is_call(c2) and callee(c2) == callee(c) and any(local_name(a) in used for a in call_args(c2)):
+                                after = True
+                    tail = f.hir.get("expr")
+                    if tail is not None:
+                        for c2, _ in walk(tail):
+                            if is_call(c2) and callee(c2) == callee(c) and any(local_name(a) in used for a in call_args(c2)):
+                                after = True
+                    ctx.ob("%s|%s(%s)" % (f.short(), short_path(callee(c)), ",".join(used)), after,
+                           "%s: `%s` emits the pending %s inside the loop; the same call after the loop flushes the last one: %s" % (
+                               f.short(), render(c)[:60], used, after), fn=f, site=c.get("sp"))
+    ctx.floor(1)
